@@ -333,6 +333,8 @@ def scan_partial_ops(fi, nodes_iter, tainted, skip_protected_from=None, dict_var
                         yield sub, ("key %r is read from the parsed-line dict but reader.read_header_line only "
                                     "guarantees the keys %s (KeyError)" % (sl.value, sorted(producer_keys)))
             else:
+                if _is_loop_position(sl):
+                    continue
                 if tainted(sl) and not _membership_guard(sub):
                     yield sub, ("subscript %s with a line-derived key/index and no membership guard (KeyError/"
                                 "IndexError)" % unparse(sub))
@@ -375,6 +377,32 @@ def scan_partial_ops(fi, nodes_iter, tainted, skip_protected_from=None, dict_var
                         cn = sub.value.func.attr if isinstance(sub.value.func, ast.Attribute) else ""
                         if cn in ("split", "rsplit", "partition", "rpartition") and cn.endswith("split"):
                             yield sub, "tuple-unpacking of %s: the number of parts depends on the line" % unparse(sub.value)
+
+
+def _is_loop_position(sl):
+    """index is a plain name bound only as a for-loop / comprehension target (a position produced by enumerate/range
+    or an element of a list of positions), not a field of the line"""
+    if not isinstance(sl, ast.Name):
+        return False
+    fn = None
+    for par in parents(sl):
+        if isinstance(par, (ast.FunctionDef, ast.Lambda)):
+            fn = par
+            break
+    if fn is None or isinstance(fn, ast.Lambda):
+        return False
+    bound_loop = False
+    for s_ in walk_shallow(fn):
+        if isinstance(s_, (ast.For, ast.comprehension)) and sl.id in target_names(s_.target):
+            bound_loop = True
+        if isinstance(s_, (ast.Assign, ast.AugAssign)):
+            targets = s_.targets if isinstance(s_, ast.Assign) else [s_.target]
+            for t in targets:
+                if sl.id in target_names(t):
+                    return False
+    if sl.id in [a.arg for a in fn.args.args]:
+        return False
+    return bound_loop
 
 
 def _is_stringy(e):
